@@ -195,7 +195,7 @@ Proof.
 Qed.
 
 (** The same statement is FALSE for the decoder without the overlong check
-    (the tree before fix b517c94): C1 81 was written back as 41. *)
+    (the tree before fix 0d0f6c8): C1 81 was written back as 41. *)
 Theorem never_silently_altered_refuted_without_min_check :
   exists bs, Forall byte bs /\
     ~ outcome_ok bs (run_file false default_enc_opts (fun x => x) bs).
